@@ -4,6 +4,7 @@ import (
 	"fmt"
 	"io"
 	"sync"
+	"sync/atomic"
 
 	"github.com/bmeg/grip/engine/pipeline"
 	"github.com/bmeg/grip/gdbi"
@@ -225,10 +226,25 @@ func (server *GripServer) BulkAdd(stream gripql.Edit_BulkAddServer) error {
 	var graphName string
 	var insertCount int32
 	var errorCount int32
+	var loadErrors int32 // errors reported by the per-graph loaders
 
-	elementStream := make(chan *gdbi.GraphElement, 100)
+	// elementStream feeds the loader of the graph that is currently being
+	// written. It is nil while there is none: before the first element and
+	// while the elements name a graph that cannot be opened.
+	var elementStream chan *gdbi.GraphElement
 	wg := &sync.WaitGroup{}
 
+	// closeStream ends the load of the current graph and waits for it, so that
+	// a later load of the same graph is applied after this one
+	closeStream := func() {
+		if elementStream != nil {
+			close(elementStream)
+			elementStream = nil
+			wg.Wait()
+		}
+	}
+
+	started := false
 	for {
 		element, err := stream.Recv()
 		if err == io.EOF {
@@ -249,35 +265,37 @@ func (server *GripServer) BulkAdd(stream gripql.Edit_BulkAddServer) error {
 
 		// create a BulkAdd stream per graph
 		// close and switch when a new graph is encountered
-		if element.Graph != graphName {
-			close(elementStream)
-			gdb, err := server.getGraphDB(element.Graph)
-			if err != nil {
-				errorCount++
-				continue
-			}
-
-			graph, err := gdb.Graph(element.Graph)
-			if err != nil {
-				log.WithFields(log.Fields{"error": err}).Error("BulkAdd: error")
-				errorCount++
-				continue
-			}
-
+		if !started || element.Graph != graphName {
+			started = true
+			closeStream()
 			graphName = element.Graph
-			elementStream = make(chan *gdbi.GraphElement, 100)
+			gdb, err := server.getGraphDB(element.Graph)
+			var graph gdbi.GraphInterface
+			if err == nil {
+				graph, err = gdb.Graph(element.Graph)
+			}
+			if err != nil {
+				log.WithFields(log.Fields{"graph": element.Graph, "error": err}).Error("BulkAdd: error")
+			} else {
+				elementStream = make(chan *gdbi.GraphElement, 100)
+				wg.Add(1)
+				go func(graph gdbi.GraphInterface, name string, elements <-chan *gdbi.GraphElement) {
+					defer wg.Done()
+					log.WithFields(log.Fields{"graph": name}).Info("BulkAdd: streaming elements to graph")
+					err := graph.BulkAdd(elements)
+					if err != nil {
+						log.WithFields(log.Fields{"graph": name, "error": err}).Error("BulkAdd: error")
+						// not a good representation of the true number of errors
+						atomic.AddInt32(&loadErrors, 1)
+					}
+				}(graph, element.Graph, elementStream)
+			}
+		}
 
-			wg.Add(1)
-			go func() {
-				log.WithFields(log.Fields{"graph": element.Graph}).Info("BulkAdd: streaming elements to graph")
-				err := graph.BulkAdd(elementStream)
-				if err != nil {
-					log.WithFields(log.Fields{"graph": element.Graph, "error": err}).Error("BulkAdd: error")
-					// not a good representation of the true number of errors
-					errorCount++
-				}
-				wg.Done()
-			}()
+		if elementStream == nil {
+			// the graph this element names could not be opened
+			errorCount++
+			continue
 		}
 
 		if element.Vertex != nil {
@@ -306,8 +324,8 @@ func (server *GripServer) BulkAdd(stream gripql.Edit_BulkAddServer) error {
 		}
 	}
 
-	close(elementStream)
-	wg.Wait()
+	closeStream()
+	errorCount += atomic.LoadInt32(&loadErrors)
 
 	return stream.SendAndClose(&gripql.BulkEditResult{InsertCount: insertCount, ErrorCount: errorCount})
 }
